@@ -304,6 +304,12 @@ structure Tokenizer.Incremental (T : Tokenizer) : Prop where
       ((T.feed s a).1 ++ (T.feed (T.feed s a).2.2 b).1, (T.feed (T.feed s a).2.2 b).2.1,
        (T.feed (T.feed s a).2.2 b).2.2)
 
+/-- What the repaired `tickit_term_input_push_bytes` additionally relies on: `termkey_push_bytes` takes a
+    prefix of what it is given — pushing just that prefix has the same effect and is accepted in full. -/
+structure Tokenizer.PartialPush (T : Tokenizer) : Prop where
+  le : ∀ (s : T.σ) (b : List UInt8), (T.push s b).2 ≤ b.length
+  take : ∀ (s : T.σ) (b : List UInt8), T.push s (b.take (T.push s b).2) = T.push s b
+
 /-- `get_keys`, literally: fetch a key, hand it to `got_key`, repeat; then arm or clear the deadline.
     `dfuel` bounds the drain loop, `fuel` the X10 loop. -/
 def getKeysLoop (T : Tokenizer) (cfg : Cfg) (fuel : Nat) :
